@@ -117,7 +117,7 @@ def prop_inputs(case):
     return e0, e1, n0, n1, initial_amplitude(case["init"], n)
 
 
-def _bare(nmol, n, dt):
+def _bare(nmol, n, dt, active=0):
     from seqm.NonadiabaticDynamics import NonadiabaticDynamicsBase
 
     class Bare(NonadiabaticDynamicsBase):
@@ -131,6 +131,8 @@ def _bare(nmol, n, dt):
     d._amp_phase = torch.zeros((nmol, n, 3), dtype=torch.float64)
     d._hop_integral = None
     d._eye_cache, d._arange_cache = {}, {}
+    # the propagation must not depend on which state is active; the attribute exists on every real object
+    d._active_states = torch.full((nmol,), int(active), dtype=torch.long)
     return d
 
 
@@ -138,7 +140,9 @@ def _propagate(cases, sub):
     """real propagation of a batch of cases (same n, dt); returns complex amplitudes (nmol,n) and hop integrals."""
     n, dt = cases[0]["n"], cases[0]["dt"]
     inp = [prop_inputs(c) for c in cases]
-    d = _bare(len(cases), n, dt)
+    d = _bare(len(cases), n, dt, active=cases[0].get("active", 0))
+    if any("active" in c for c in cases):
+        d._active_states = torch.as_tensor([int(c.get("active", 0)) for c in cases], dtype=torch.long)
     for m, (_e0, _e1, _n0, _n1, c0) in enumerate(inp):
         d._amp_phase[m, :, 0] = torch.as_tensor(c0.real)
         d._amp_phase[m, :, 1] = torch.as_tensor(c0.imag)
@@ -202,11 +206,20 @@ def prop_lattice(tier):
                         if tier == "quick" and not (init == "pure0" or (n in (2, 5, 8) and gap in (1e-4, 1.0))):
                             continue
                         cases.append(dict(n=n, coupling=cp, gap=gap, dt=dt, init=init))
+    # the (0,1) spike between two NON-active states carrying population: the sub-step rule must look at the whole
+    # coupling matrix, not only at the couplings of the active state
+    for n in (3, 5, 8):
+        for cp in COUPLINGS:
+            if not cp[0].startswith("spike"):
+                continue
+            for gap in (1e-4, 1.0):
+                for dt in DTS:
+                    cases.append(dict(n=n, coupling=cp, gap=gap, dt=dt, init="mix", active=n - 1))
     return cases
 
 
 def _pkey(c):
-    return f"prop|n={c['n']}|{c['coupling'][0]}:{c['coupling'][1]:g}|gap={c['gap']:g}|dt={c['dt']:g}|{c['init']}"
+    return f"prop|n={c['n']}|{c['coupling'][0]}:{c['coupling'][1]:g}|gap={c['gap']:g}|dt={c['dt']:g}|{c['init']}" + (f"|active={c['active']}" if "active" in c else "")
 
 
 def account_prop(chk, cases, results):
